@@ -30,6 +30,8 @@ pub(crate) fn optimize(
     symbol_list: &SymbolList,
     enabled_modes: FlagSet<EncodationType>,
 ) -> Option<Vec<(usize, EncodationType)>> {
+    #[cfg(feature = "verif_hooks")]
+    crate::verif::begin_optimize(data.len(), written);
     let start_plan = GenericPlan::for_mode(mode, data, written, symbol_list);
 
     let mut plans = Vec::with_capacity(36);
@@ -48,6 +50,8 @@ pub(crate) fn optimize(
         let rest_chars = data.len() - iteration;
         for mut plan in plans.drain(0..) {
             let plan_copy_before_step = plan.clone();
+            #[cfg(feature = "verif_hooks")]
+            crate::verif::count_step();
             let result = if let Some(result) = plan.step() {
                 result
             } else {
@@ -81,7 +85,11 @@ pub(crate) fn optimize(
             assert_eq!(result.end, at_end);
         }
 
+        #[cfg(feature = "verif_hooks")]
+        let before_prune = new_plan.len();
         remove_hopeless_cases(&mut new_plan);
+        #[cfg(feature = "verif_hooks")]
+        crate::verif::end_iteration(before_prune, new_plan.len());
 
         if new_plan.is_empty() {
             return None;
@@ -97,6 +105,8 @@ pub(crate) fn optimize(
                     (p.cost().ceil(), max_enc, p.switches.len())
                 })
                 .unwrap();
+            #[cfg(feature = "verif_hooks")]
+            crate::verif::selected_plan(plan.cost().twelfths());
             plan.switches.push((0, plan.current()));
 
             // Remove a "switch" to ASCII if we are at the very beginning
